@@ -3,6 +3,7 @@ frames, recovery, utils, extensions; and the regression corpus loader."""
 import glob
 import itertools
 import os
+import random
 import re
 
 from gselib import *
@@ -114,7 +115,7 @@ def parse_line(line):
 def suite_mem(rng, tier):
     """all sequences of memory operations up to a bounded depth, plus random longer ones"""
     out = []
-    depth = 4 if tier == "quick" else 6
+    depth = 4
 
     def emit(s, a, handles):
         k = a[0]
@@ -142,6 +143,10 @@ def suite_mem(rng, tier):
         seqs = itertools.product(alpha, repeat=depth)
         if tier == "quick":
             seqs = [tuple(rng.choice(alpha) for _ in range(depth + 2)) for _ in range(700)]
+        else:
+            # every sequence of depth 3 (13^3 per slot count), then sampled deeper ones
+            seqs = itertools.chain(itertools.product(alpha, repeat=3),
+                                   (tuple(rng.choice(alpha) for _ in range(rng.randrange(4, 10))) for _ in range(8000)))
         for seq in seqs:
             s = Session("mem%d" % n)
             n += 1
@@ -212,9 +217,9 @@ def suite_reuse(rng, tier):
     alpha = [("send", l, how) for l in (LBL_A6, LBL_B6, LBL_A3, LBL_BC, LBL_RU) for how in ("ok", "small", "frag")] + \
             [("send", LBL_A6, "ptype"), ("send", LBL_Z6, "ok"), ("send", LBL_B3, "ok"), ("send", LBL_A6, "ext"), ("send", LBL_A6, "extsmall"),
              ("reset",), ("disable",), ("enable",), ("max", 1), ("max", 2), ("max", 0), ("max", 255)]
-    depth = 3 if tier == "quick" else 4
+    depth = 3
     seqs = list(itertools.product(alpha, repeat=depth)) if tier != "quick" else []
-    nrand = 1500 if tier == "quick" else 6000
+    nrand = 1500 if tier == "quick" else 25000
     for _ in range(nrand):
         seqs.append(tuple(rng.choice(alpha) for _ in range(rng.randrange(3, 14))))
     # long runs against the counter
@@ -224,7 +229,12 @@ def suite_reuse(rng, tier):
         s = Session("reuse%d" % n)
         s.enc("new")
         s.dec_new(4, 40, None)
-        for _ in range(4):
+        # one session in three starves the receiver: storages are given back late, so that packets are
+        # refused for lack of storage in the middle of label re-use traffic
+        starve = (n % 3 == 2)
+        if starve:
+            s.strict = False
+        for _ in range(1 if starve else 4):
             s.prov(40, 0)
         for a in seq:
             if a[0] == "send":
@@ -249,7 +259,8 @@ def suite_reuse(rng, tier):
                 if how == "frag":
                     j = s.encap_frag(pdu, s.ops[i]["reg"], bs_zero(64), cout=s.ops[i]["reg"])
                     s.decap_if("p:%d" % s.ops[j]["reg"], of=j)
-                s.prov(40, 0)
+                if not starve or rng.random() < 0.45:
+                    s.prov(40, 0)
             elif a[0] == "reset":
                 s.enc("reset")
                 s.dec_reset()
@@ -424,6 +435,38 @@ def suite_states(rng, tier):
             egl = 1 + need + 4
             s.decap("h:%04x01%s%08x" % (0x7000 | egl, last.hex(), crc))
             out.append(s)
+    # every give-back site of decap with the free list refilled to capacity while a reassembly holds a
+    # storage: the storage must come back inside the error value, never vanish
+    triggers = {
+        "inter-oversize": "h:300601" + "1122334455",
+        "end-oversize": "h:700a01" + "1122334455" + "00000000",
+        "end-totallen": "h:700701" + "dddd" + "00000000",
+        "end-badcrc": "h:700801" + "ddeeff" + "00000000",
+        "first-oversize-same-id": "h:a00c0100100800" + "01020304050607",
+        "first-oversize-alias-id": "h:a00c%02x00100800" + "01020304050607",
+        "inter-ok-then-end-badcrc": None,
+    }
+    for slots in (1, 2, 3):
+        for name, trig in triggers.items():
+            for fill in ("full", "one-short", "none"):
+                s = Session("st-giveback-%d-%s-%s" % (slots, name, fill))
+                s.strict = False
+                s.dec_new(slots, 6, None)
+                s.prov(6, 0)
+                s.decap("h:a00801" + "0008" + "0800" + "aabbcc")       # first fragment, frag id 1, 3 of 6 bytes
+                k = {"full": slots + 2, "one-short": slots + 1, "none": 0}[fill]
+                for _ in range(k):
+                    s.prov(6, 0)
+                if name == "inter-ok-then-end-badcrc":
+                    s.decap("h:300301" + "dd")
+                    s.decap("h:700701" + "eeff" + "00000000")
+                elif name == "first-oversize-alias-id":
+                    s.decap(trig % (1 + slots))
+                else:
+                    s.decap(trig)
+                s.dec_newpdu()
+                s.decap("h:300301" + "99")
+                out.append(s)
     for r in range(30 if tier == "quick" else 300):
         s = Session("st-refill%d" % r)
         slots = rng.choice([1, 2, 3])
@@ -702,6 +745,51 @@ def suite_frames(rng, tier):
                 if garbage and regs:
                     # the first packet followed by garbage: same outcome for the first step
                     pass
+            out.append(s)
+    # rejected packets in the middle of a frame: every per-packet rejection consumes its own length only
+    for n in range(80 if tier == "quick" else 1500):
+        kind = rng.choice(["unknown-mand", "unknown-mand-ext", "unknown-mand-first", "badcrc", "unknown-fid", "nostorage", "noreuse"])
+        for mode in ("single", "walk"):
+            s = Session("reject%d-%s" % (n, mode))
+            s.strict = False
+            s.twin = "reject%d" % n
+            s.enc("new")
+            s.enc("disable")
+            s.dec_new(2, 64, None)
+            for _ in range(0 if kind == "nostorage" else 3):
+                s.prov(64, 0)
+            regs = []
+            i = s.encap(bs_gen(n, 9), 1, 0x0800, LBL_A6, bs_zero(40))
+            regs.append(s.ops[i]["reg"])
+            if kind == "unknown-mand":
+                j = s.encap(bs_gen(n + 1, 6), 1, 0x0081, LBL_A3, bs_zero(40))      # protocol type = unknown mandatory extension
+                regs.append(s.ops[j]["reg"])
+            elif kind == "unknown-mand-ext":
+                j = s.encap(bs_gen(n + 1, 6), 1, 0x0800, LBL_A3, bs_zero(60), exts=[(0x0101, b""), (0x0055, b"\x01\x02")])
+                regs.append(s.ops[j]["reg"])
+            elif kind == "unknown-mand-first":
+                j = s.encap(bs_gen(n + 1, 30), 1, 0x0800, LBL_A3, bs_zero(24), exts=[(0x0055, b"\x01\x02")])
+                regs.append(s.ops[j]["reg"])
+            elif kind == "badcrc":
+                idx = _train(s, random.Random(n), bs_gen(n + 2, 20), 2, 0x0800, LBL_BC, 12, [64])
+                regs += [s.ops[k]["reg"] for k in idx]
+                s.xorreg(regs[-1], 4, b"\x01")
+            elif kind == "unknown-fid":
+                s.setreg(900, "h:300405aabbcc")
+                regs.append(900)
+                s.setreg(901, "h:700605aa00000000")
+                regs.append(901)
+            elif kind == "noreuse":
+                s.setreg(900, "h:f0050800aabbcc")
+                regs = [900] + regs
+            j = s.encap(bs_gen(n + 3, 5), 1, 0x0800, LBL_BC, bs_zero(40))
+            regs.append(s.ops[j]["reg"])
+            if mode == "single":
+                for r in regs:
+                    s.decap_if("p:%d" % r)
+                s.decap("z:4")
+            else:
+                s.walk("+".join("p:%d" % r for r in regs) + "+z:4")
             out.append(s)
     # outcome independent of following bytes
     for n in range(60 if tier == "quick" else 1000):
